@@ -17,10 +17,12 @@ CHECKS = {
              'and on documents written by an independent speller under random spelling choices; the parser-independent oracle is '
              'that the parsed content equals the content the speller was given (nothing dropped, nothing invented, order kept) and '
              'that spellings (incl. inline/short/block Ref and addressing) do not matter. Named departures from well-formedness '
-             'are replayed as known findings. Parse-of-spelling theorems exist for two element kinds in the renderer\'s spelling '
-             '(parseDoc_tables_refs + build_tables_refs + buildRef_plain: any number of tables with plain columns followed by '
-             'standalone references, each declaration once, in source order, references linked to the named columns; '
-             'parseDoc_enum; parseDoc_sticky) and are partial; theorems '
+             'are replayed as known findings. Theorems: document_faithful_gaps (C01LayoutDoc.lean) - a document of enums, tables whose '
+             'columns carry settings / defaults / notes / properties / inline references, standalone references, table groups and sticky '
+             'notes, written with ANY positive number of empty lines between its elements and any number of line breaks at its end, '
+             'is parsed to exactly the declared database (every element once, in source order, references linked to the named '
+             'columns); built on parseDoc_elems_gaps_end, parseDoc_elems, DocSpec.build; partial: spacing inside an element and the '
+             'other element features are left to the correspondence; theorems '
              'about the same model for any text are claimed under C05/C06/C07/C08.',
         note='trusted: hand-written model tied by sampling; the speller (harness/speller.py) as independent expected-model oracle',
         technique='Lean parser model + differential correspondence + speller oracle'),
